@@ -163,3 +163,16 @@ Proof.
   split; [repeat constructor|]. split; [vm_compute; repeat constructor; simpl; intuition discriminate|].
   vm_compute. repeat split; reflexivity.
 Qed.
+
+(** UpstreamLedger: a buffered_unordered(2) history whose upstream has three items, a Pending
+    in between and an end: the polls of the upstream over the whole history are the upstream's
+    own sequence of answers, and the end is seen exactly once *)
+From FB Require Import Adapters UpstreamLedger.
+Definition cp_ad : cparams := {| p_cap := 2; p_new := false; p_iter := false; p_lazy := false; p_seed := None; p_hlo := 0; p_hhi := None |}.
+Definition ups_ex : list upstep := [UItem [([], RR)]; UPend []; UItem [([], RP); ([], RR)]; UItem [([], RR)]; UEnd].
+Definition ops_up : list op :=
+  [OBuild TBU cp_ad [] ups_ex; OPoll 0 no_inj; OPoll 0 no_inj; OPoll 0 no_inj; OPoll 0 no_inj; OPoll 0 no_inj; OPoll 0 no_inj].
+Example upstream_history_is_sequential :
+  uppolls_in P0 init_state ops_up = [UAItem 1%N; UAPend; UAItem 2%N; UAItem 3%N; UAEnd]
+  /\ fst (up_run false (mk_upstream ups_ex 0 None) 5) = [UAItem 1%N; UAPend; UAItem 2%N; UAItem 3%N; UAEnd].
+Proof. vm_compute. split; reflexivity. Qed.
